@@ -27,7 +27,7 @@ MAXY = 6
 TECHNIQUE += '; recorded arguments of cf_apply_surface_bc (surface gravity and G of the unit system of the solve); declared C integer widths of loop indices against their bounds'
 
 EXPLANATION += ' R02.9 the surface routine receives the gravity and G of the unit system the layers were integrated in; R02.10 no loop index narrower than its bound (interface and surface rows of finer grids).'
-EXPLANATION += ' R02.10 also: no negation of an unsigned int / long / size_t value. R02.11 the readers of the Love-number buffer return the numbers stored for the requested type (C03\'s reader rule by alias). R02.6 follows every outcome of a data-dependent choice inside a legacy interface function; a starting block that differs from the compiled sibling\'s must be continuous (y1, y2, y5, y6) with the constants the legacy downward pass collapse_solutions assigns.'
+EXPLANATION += ' R02.10 also: every typed integer used as an offset inside a subscript is at least as wide as the integers it is computed from; no negation of an unsigned int / long / size_t value. R02.11 the readers of the Love-number buffer return the numbers stored for the requested type (C03\'s reader rule by alias). R02.6 follows every outcome of a data-dependent choice inside a legacy interface function; a starting block that differs from the compiled sibling\'s must be continuous (y1, y2, y5, y6) with the constants the legacy downward pass collapse_solutions assigns.'
 
 def run(chk):
     repo = Repo(chk.repo)
